@@ -1,15 +1,24 @@
 #!/bin/bash
-# Run once after a fresh restore, offline: builds the clock shim and pre-builds every check.
-set -e
+# Run once after a fresh restore, offline: builds the clock shim and pre-builds the binaries of
+# every check listed in MANIFEST.json (each ./check invocation rebuilds on demand anyway).
+set -u
 ROOT="$(cd "$(dirname "$0")" && pwd)"
 export CARGO_NET_OFFLINE=true
 mkdir -p "$ROOT/target" "$ROOT/evidence"
 if [ -f "$ROOT/shim/clock.c" ]; then
-  gcc -O2 -shared -fPIC -o "$ROOT/shim/libverifclock.so" "$ROOT/shim/clock.c" -ldl
+  gcc -O2 -shared -fPIC -o "$ROOT/shim/libverifclock.so" "$ROOT/shim/clock.c" -ldl || echo "WARNING: clock shim did not build"
 fi
-cd "$ROOT/harness"
-cargo build --offline --release --bins 2>&1 | tail -3
-if [ -f src/bin/c05.rs ]; then
+cd "$ROOT/harness" || exit 1
+BINS=""
+for id in $(jq -r '.checks[].property_id' "$ROOT/MANIFEST.json" | tr 'A-Z' 'a-z'); do
+  [ -f "src/bin/$id.rs" ] && BINS="$BINS --bin $id"
+done
+if [ -n "$BINS" ]; then
+  cargo build --offline --release $BINS 2>&1 | tail -3
+  rc=${PIPESTATUS[0]}
+  if [ "$rc" -ne 0 ]; then echo "setup: release build failed"; exit 1; fi
+fi
+if jq -e '.checks[] | select(.property_id=="C05")' "$ROOT/MANIFEST.json" >/dev/null 2>&1; then
   cargo build --offline --profile devopt --bin c05 2>&1 | tail -1
 fi
 echo "setup done"
